@@ -98,6 +98,7 @@ func evalSpec(s *spec) *refResult {
 		rhs []int
 	}
 	var all []fullRule
+	laTargets := map[int][]int{}
 	next := b.nT + len(s.NTs)
 	var occExprs []*sx
 	var occSyms []int
@@ -108,6 +109,17 @@ func evalSpec(s *spec) *refResult {
 				b.pseudo[next] = it.Set
 				occExprs = append(occExprs, it.Set)
 				occSyms = append(occSyms, next)
+				fr.rhs = append(fr.rhs, next)
+				next++
+			} else if it.LA != nil {
+				// A lookahead marker: derives the empty string, contributes no terminals, and makes
+				// every nonterminal it names (negated or not) reachable.
+				var targets []int
+				for _, p := range it.LA {
+					targets = append(targets, b.symIndex[p.NT])
+				}
+				laTargets[next] = targets
+				b.nullable[next] = true
 				fr.rhs = append(fr.rhs, next)
 				next++
 			} else {
@@ -155,6 +167,12 @@ func evalSpec(s *spec) *refResult {
 		queue = queue[:len(queue)-1]
 		if e, ok := b.pseudo[x]; ok {
 			mentions(e, map[*sx]bool{}, enqueue)
+			continue
+		}
+		if ts, ok := laTargets[x]; ok {
+			for _, t := range ts {
+				enqueue(t)
+			}
 			continue
 		}
 		for _, r := range all {
